@@ -27,6 +27,7 @@ DOC = {
         "C14-R1": "simulate_from_clp / simulate_full_model and MatrixProvider.calculate_dataset_matrices / calculate_global_matrices all call MatrixProvider.calculate_dataset_matrix; nothing in glotaran/simulation calls a megacomplex' calculate_matrix directly; the dataset model is filled from the given parameters",
         "C14-R2": "data[:, i] = matrix_i @ clp(position i on the global dimension, selected by the matrix' clp labels); result allocated as zeros (model, global) on the given axes",
         "C14-R3": "full model: clp = global matrix transposed to (clp_label, global) with the global matrix' own labels; index dependent global matrices are refused",
+        "C14-R5": "the fit applies to the shared builder's matrix exactly the stages megacomplex scale -> dataset scale (also per aligned index, over the datasets stacked there) -> relations -> constraints -> weight, each once (same obligations as C02-R2); simulation applies none, so simulated data lie in the column space of the fit's matrix up to the dataset scale",
         "C14-R4": "with noise: np.random.seed(noise_seed) (when a seed is given) is executed before the normal draw, which is centred on the simulated data with the given standard deviation; without noise the data is returned unchanged",
     },
     "declined": ["recovery of generating parameters from perturbed starts, zero objective at the truth (numeric, needs execution)"],
@@ -185,9 +186,17 @@ def r4(ctx) -> None:
     ctx.ob("C14-R4", "simulate/returns-result", all(norm(r.value) == "result" for r in rets) and bool(rets), f, rets[0] if rets else f.node, "returns the simulated dataset")
 
 
+def r5(ctx) -> None:
+    """The fit side of the agreement: the matrix the fit uses is the shared builder's matrix with exactly the documented
+    stages applied (shared with C02-R2); simulation applies none of them, which is why clps come back divided by the scale."""
+    from glint.rules.c02 import r2 as pipeline
+
+    pipeline(ctx, rule="C14-R5")
+
+
 def check(ctx) -> None:
     for g in check.groups:
         g(ctx)
 
 
-check.groups = [r1, r2, r3, r4]
+check.groups = [r1, r2, r3, r4, r5]
